@@ -3,8 +3,16 @@
 from .. import catalogue, ir
 
 
-def gen_tape(rng, n, hi=8):
-    return [rng.randrange(hi) for _ in range(n)]
+def gen_tape(rng, n, hi=8, odd=0.0):
+    """odd: probability of forcing a draw odd (biases ENV.cond towards true
+    so that scheduler-driven loops and call trees grow)."""
+    out = []
+    for _ in range(n):
+        v = rng.randrange(hi)
+        if odd and rng.random() < odd:
+            v |= 1
+        out.append(v)
+    return out
 
 
 def gen_faults(rng, maxk, nmax, pbase=0.15):
